@@ -118,7 +118,19 @@ def c30(ctx):
         evaluations=res["evaluations"], distinct_nontrivial=res["distinct_nontrivial"],
         rule="TLC enumerates every string of <= %d tokens over {/,+,#,$,a,share,SYS} (%d strings) with ValidFilterChars and ValidPublishTopicChars from MqttTopics.tla; the real IsValidFilter(s,false) and IsValidFilter(s,true) must agree on every row. distinct = number of distinct strings." % (depth, n),
         samples=res["samples"], table_rows=n)
-    ctx.assumptions += ["the SUBACK reason code and 'creates nothing' part is decided by the broker-family run appended below when available"]
+    # broker level: SUBACK code for invalid filters + nothing created; $SYS / wildcard publish topics never accepted (also with aliases)
+    table_cov = dict(ctx.cov)
+    from families import broker
+    broker.BROKER_PART_C30(ctx)
+    hist_cov = dict(ctx.cov)
+    ctx.cov.update(table_cov)
+    ctx.cov.update(states=hist_cov.get("states", 1), transitions=hist_cov.get("transitions", 1),
+                   traces_validated_against_impl=hist_cov.get("traces_validated_against_impl", 0),
+                   evaluations=table_cov["evaluations"] + hist_cov.get("evaluations", 0),
+                   distinct_nontrivial=table_cov["distinct_nontrivial"] + hist_cov.get("distinct_nontrivial", 0),
+                   rule=table_cov["rule"] + " PLUS " + hist_cov.get("rule", "") + " (SUBSCRIBE with invalid filters: code 0x8F / 0x80 and nothing created; "
+                        "PUBLISH to $SYS... with and without topic alias: never routed, never retained)",
+                   samples=table_cov["samples"][:3] + hist_cov.get("samples", [])[:2])
 
 
 FAMILY = {"C01": c01, "C02": c02, "C30": c30}
